@@ -93,18 +93,30 @@ func findRow(vr, thr, mn, mx uint64) Row {
 }
 
 // installTable sets params.Versions from the table. Called once, before any case.
+//
+// Every entry is the repository's complete test-case parameter set of the current
+// version (EVM version, staking trie frequency, ... - what block execution reads) with
+// only the identity and the upgrade-related fields replaced, so that the chain-level
+// prop (chain_test.go) can import real blocks under any version of the table. The
+// version-state verifier and builder read the upgrade fields only. The network id is
+// fixed first: InitNetworkId itself assigns params.Versions, so it must not run later.
 func installTable() {
+	params.InitNetworkId(params.NetworkIdForTestCase)
+	base, ok := params.Versions[params.YouCurrentVersion]
+	if !ok {
+		panic("c12: no test-case parameters for the current version")
+	}
 	m := make(params.VersionsMap, nKnown)
 	for _, r := range table[1:] {
-		m[params.YouVersion(r.ID)] = params.YouParams{
-			Version:                params.YouVersion(r.ID),
-			ApprovedUpgradeVersion: params.YouVersion(r.Approved),
-			UpgradeWaitRounds:      r.UpgradeWait,
-			UpgradeVoteRounds:      r.VoteRounds,
-			UpgradeThreshold:       r.Threshold,
-			MinUpgradeWaitRounds:   r.MinWait,
-			MaxUpgradeWaitRounds:   r.MaxWait,
-		}
+		p := base // shallow copy: the maps inside are shared and never written
+		p.Version = params.YouVersion(r.ID)
+		p.ApprovedUpgradeVersion = params.YouVersion(r.Approved)
+		p.UpgradeWaitRounds = r.UpgradeWait
+		p.UpgradeVoteRounds = r.VoteRounds
+		p.UpgradeThreshold = r.Threshold
+		p.MinUpgradeWaitRounds = r.MinWait
+		p.MaxUpgradeWaitRounds = r.MaxWait
+		m[params.YouVersion(r.ID)] = p
 	}
 	params.Versions = m
 }
